@@ -122,14 +122,11 @@ class CWorld(ObjWorld):
                 kern.update(pk)
         old = type(ctx)._compile_kernels_info
         type(ctx)._compile_kernels_info = False
+        opt = c.get("opt", "-O0")
+        # ("default": the library's own compile and link flags, as a user gets them)
+        flags = {} if opt == "default" else dict(extra_compile_args=(opt, "-Wno-unused-function"), extra_link_args=(opt,))
         try:
-            ctx.add_kernels(
-                sources=sources,
-                kernels=kern,
-                extra_classes=roots,
-                extra_compile_args=(c.get("opt", "-O0"), "-Wno-unused-function"),
-                extra_link_args=(c.get("opt", "-O0"),),
-            )
+            ctx.add_kernels(sources=sources, kernels=kern, extra_classes=roots, **flags)
         finally:
             type(ctx)._compile_kernels_info = old
 
@@ -575,7 +572,7 @@ class CApiSim(ObjSim):
         omps = [rng.choice([0, 0, 0, 2, "auto"]) if profile != "c_restart" else 0 for _ in spec["contexts"]]
         for c, o in zip(spec["contexts"], omps):
             c["omp"] = o
-        spec["c"] = {"ctx": rng.randrange(len(spec["contexts"])), "opt": "-O3" if rng.random() < 0.1 else "-O0", "decoy": rng.random() < 0.3}
+        spec["c"] = {"ctx": rng.randrange(len(spec["contexts"])), "opt": rng.choices(["-O0", "-O3", "default"], weights=[84, 8, 8])[0], "decoy": rng.random() < 0.3}
         if profile == "c_calls":
             from . import cprobes
 
